@@ -355,7 +355,18 @@ class Spec:
             st.attempted.add(args[1])
         if strict:
             snap = pickle.dumps(conn)
+        proj0 = H.quiescent_projection(conn)
         o = h.api(method, *args, **kw)
+        if o.kind == "raise":
+            # refused before any state machine was asked (arguments, ids, windows, limits, header lists): nothing at all may
+            # have changed.  A refusal that comes out of a state machine closes that machine (C01's known finding): then the
+            # connection state and the set of live streams are left out of the comparison, everything else still counts.
+            diff = H.projection_diff(proj0, H.quiescent_projection(conn))
+            if o.via_fsm:
+                diff = [d for d in diff if d not in ("connection state", "live streams")]
+            if diff:
+                bad("refused-call-changed-state", "%s raised %s (%s) but changed: %s" % (lab, o.exc_name, o.msg, ", ".join(diff)),
+                    call=method, exc=o.exc_name, changed=",".join(diff))
         if o.kind == "raise":
             st.dirty = True
         extra = {}
